@@ -558,6 +558,7 @@ func init() {
 		}
 		sc.ClientScripts = [][]Op{ops}
 		sc.ServerScripts = [][]Op{recvs(len(lens))}
+		lateApps(sc, p)
 		sc.Monitors = append(sc.Monitors, monPrefix)
 		sc.Final = append(sc.Final, finalAllDelivered)
 		sc.Cfg.Horizon = 40 * time.Second
